@@ -28,6 +28,7 @@ type c03Case struct {
 	ModeFault string  `json:"modeFault"` // ok | refused | ignored | stick1
 	PwmFault  string  `json:"pwmFault"`  // ok | refused
 	Stall     bool    `json:"stall"`     // no stop at all: the fan stalls at its maximum (fatal control error)
+	PwmUnreadable bool `json:"pwmUnreadable"` // PWM reads fail from the stop on
 }
 
 func (c *c03Case) class() string {
@@ -38,7 +39,7 @@ func (c *c03Case) class() string {
 	if c.Stall {
 		phase = "stall-error"
 	}
-	return fmt.Sprintf("%s:mode%d:enable=%v:modeFault=%s:pwmFault=%s:stored=%v:%s", c.Spec.FanKind, c.Spec.OrigMode, c.Spec.HasEnable, c.ModeFault, c.PwmFault, c.Spec.Stored, phase)
+	return fmt.Sprintf("%s:mode%d:enable=%v:modeFault=%s:pwmFault=%s:pwmUnreadable=%v:stored=%v:%s", c.Spec.FanKind, c.Spec.OrigMode, c.Spec.HasEnable, c.ModeFault, c.PwmFault, c.PwmUnreadable, c.Spec.Stored, phase)
 }
 
 func c03Rules(r *Rig, c *c03Case) []*util.VerifRule {
@@ -53,6 +54,10 @@ func c03Rules(r *Rig, c *c03Case) []*util.VerifRule {
 	}
 	if c.PwmFault == "refused" {
 		rules = append(rules, &util.VerifRule{Path: r.PwmPath, Op: "w", Action: "fail", Errno: "EIO"})
+	}
+	if c.PwmUnreadable {
+		// from the stop on the PWM value cannot be read back any more (the controller falls back to what it remembers)
+		rules = append(rules, &util.VerifRule{Path: r.PwmPath, Op: "r", Action: "fail", Errno: "EIO"})
 	}
 	return rules
 }
@@ -189,6 +194,9 @@ func genC03(r *rand.Rand) *c03Case {
 	if spec.FanKind != "hwmon" || !spec.HasEnable {
 		c.ModeFault = "ok"
 	}
+	// operating point: mostly mid-range, sometimes the curve is at its maximum / minimum when regulation stops
+	c.Spec.TempMdeg = pick(r, 45000, 45000, 52000, 90000, 90000, 20000)
+	c.PwmUnreadable = r.Intn(5) == 0
 	if r.Intn(12) == 0 {
 		// a cmd fan (no control mode, restore = set command); process spawns make it slow, so only time-based stops
 		c.Spec.FanKind, c.Spec.HasEnable, c.Spec.Stored, c.ModeFault = "cmd", false, true, "ok"
